@@ -163,11 +163,11 @@ func (a *analyzer) lockID(v ssa.Value) string {
 		}
 		owner := "?"
 		if n := an.NamedOf(x.X.Type()); n != nil {
-			owner = n.Obj().Name()
+			owner = an.TName(n)
 		}
-		return owner + "." + st.Field(x.Field).Name()
+		return owner + "." + an.FName(st, x.Field)
 	case *ssa.Global:
-		return x.Pkg.Pkg.Name() + "." + x.Name()
+		return x.Pkg.Pkg.Name() + "." + an.GName(x)
 	}
 	return ""
 }
@@ -416,7 +416,7 @@ func (a *analyzer) locOf(addr ssa.Value) string {
 	if root == nil {
 		if g, ok := addr.(*ssa.Global); ok && a.p.InModule(a.root) {
 			if strings.HasPrefix(g.Pkg.Pkg.Path(), an.Module) {
-				return "global:" + g.Pkg.Pkg.Name() + "." + g.Name()
+				return "global:" + g.Pkg.Pkg.Name() + "." + an.GName(g)
 			}
 		}
 		return ""
@@ -433,7 +433,7 @@ func (a *analyzer) locOf(addr ssa.Value) string {
 	if st == nil {
 		return ""
 	}
-	return n.Obj().Name() + "." + st.Field(root.Field).Name()
+	return an.TName(n) + "." + an.FName(st, root.Field)
 }
 
 func (a *analyzer) access(f *ssa.Function, ins ssa.Instruction, addr ssa.Value, write bool, st Set) {
